@@ -27,6 +27,10 @@ def gen_history(rng, run, mode="kvs", nops=60, focus="C01"):
     nkeys = rng.choice([2, 3, 3, 4, 6])
     keyset = rng.choice(["plain", "prefix", "long"])
     pad = rng.choice([0, 0, 1500, 2500])
+    if focus == "C03" and rng.random() < 0.6:
+        # several files per level, so that scans and seeks cross file boundaries inside a level
+        nkeys = rng.choice([4, 6, 6])
+        pad = rng.choice([1500, 2500])
     if focus == "C07" and rng.random() < 0.7:
         # several files per level, so that a held cursor still has files to open lazily
         nkeys = rng.choice([4, 6, 6])
@@ -65,7 +69,13 @@ def gen_history(rng, run, mode="kvs", nops=60, focus="C01"):
                 open_cursors.append(next_cursor[0])
             elif c < 0.9:
                 calls = scan_op(rng, nkeys)[3] if rng.random() < 0.5 else [["next"]] * rng.randint(1, 3)
-                ops.append(["step", rng.choice(open_cursors), calls])
+                cid = rng.choice(open_cursors)
+                if rng.random() < 0.3:
+                    # run the cursor to its end, let compactions retire what it read, then use it again
+                    ops.append(["step", cid, [["first"]] + [["next"]] * (3 * nkeys + 4)])
+                    ops += [["compact"]] * rng.randint(2, 8)
+                    calls = rng.choice([[["prev"], ["prev"]], [["first"], ["next"], ["next"]], [["seek", rng.randint(1, nkeys)], ["next"]], [["last"], ["prev"]]])
+                ops.append(["step", cid, calls])
                 if rng.random() < 0.5:
                     ops += [["compact"]] * rng.randint(1, 4)
             else:
@@ -75,6 +85,12 @@ def gen_history(rng, run, mode="kvs", nops=60, focus="C01"):
             continue
         if focus == "C03" and rng.random() < 0.3:
             ops.append(scan_op(rng, nkeys))
+            if rng.random() < 0.25:
+                # a sweep: every key as a seek target and as an included / excluded start bound (file boundaries
+                # inside a level are wherever the compactions happened to cut)
+                for k in range(1, nkeys + 1):
+                    ops.append(["scan", ["U", 0], ["U", 0], [["seek", k], ["next"], ["prev"]]])
+                    ops.append(["scan", [rng.choice(["I", "E"]), k], ["U", 0], [["first"], ["next"], ["next"]]])
             continue
         if focus == "C05" and rng.random() < 0.25:
             ops.append(["compact"])
